@@ -322,6 +322,7 @@ package geojson
 //@   arith order
 //@   requires g != nil
 //@   ensures isPolygonK(result) && !old($alloc)[result] && isRectPolyS(polyOf(result), g.base)
+//@   ensures NoExtra: as(result,*Polygon).extra == nil
 
 //@ func LineString.Empty
 //@   props C09 C11
